@@ -441,6 +441,9 @@ def node_values_rule(ctx):
 
 
 def run(ctx):
+    from . import e2e_rules as _e2e
+
+    ctx.attempt(_e2e.results_rule, ctx, 'R16.E1')
     from ..shared import zero_argument_division_rule as _zero_argument_division_rule
 
     ctx.attempt(_zero_argument_division_rule, ctx, "R16.12", scope=lambda f: f.module.name.startswith(("EasyFEA.Models.InElastic", "EasyFEA.Simulations._inelastic")))
